@@ -247,7 +247,7 @@ var vdBoundaryDates = [][3]int{
 // (With a symbolic date as well the solver does not decide the combined time and calendar
 // normalisation; symbolic dates are covered by VerifC33PlusDays.)
 //
-//symgo:harness prop=C33 tier=quick arith=int timeout=300 ttimeout=1700 qtimeout=60000 shards=2 tshards=8 bounds=5_concrete_boundary_dates_(thorough_27);any_time_of_day;one_of_hours/minutes/seconds/ms_offset_up_to_+-2_days'_worth_(thorough_+-4) outside=symbolic_date_together_with_time_offsets_(solver_unknown);several_offset_fields_at_once;larger_offsets
+//symgo:harness prop=C33 tier=quick arith=int timeout=300 ttimeout=1700 qtimeout=60000 shards=2 tshards=8 bounds=5_concrete_boundary_dates_(thorough_27);any_time_of_day;one_of_hours/minutes/seconds/ms_offset_with_the_result_within_+-1_day_(thorough_+-3_days) outside=symbolic_date_together_with_time_offsets_(solver_unknown);several_offset_fields_at_once;larger_offsets
 func VerifC33PlusTime() {
 	vdEnable()
 	nd := 5
